@@ -7,7 +7,7 @@ if os.environ.get("PYTHONHASHSEED") is None:
     os.execv(sys.executable, [sys.executable] + sys.argv)
 HERE = os.path.dirname(os.path.dirname(os.path.abspath(__file__)))
 sys.path[:] = [p for p in sys.path if os.path.abspath(p or ".") != os.path.join(HERE, "sim")]
-sys.path.insert(0, HERE); sys.path.insert(0, "/repo/src")
+sys.path.insert(0, HERE); sys.path.insert(0, os.path.join(os.environ.get("VERIF_REPO", "/repo"), "src"))
 sys.dont_write_bytecode = True
 import argparse
 from sim import runner, harness
